@@ -171,6 +171,25 @@ def handle(req):
             return {'ok': True, 'ret': dump(ret), 'args_after': [dump(a) for a in args], 'shares': [_shares(ret, a) for a in args]}
         except Exception as e:  # the exception is part of the observable behaviour
             return {'ok': False, 'exc': type(e).__name__, 'msg': str(e)[:500]}
+    if op == 'joint':
+        # several library calls whose lazy (dask-backed) results are evaluated together in ONE graph: dask.compute(r1.data, r2.data, ...)
+        import dask
+        import xarray as xr
+        try:
+            rets = []
+            for c in req['calls']:
+                f = resolve(c['module'], c['func'])
+                args = [build(a) for a in c.get('args', [])]
+                kwargs = {k: build(v) for k, v in c.get('kwargs', {}).items()}
+                rets.append(f(*args, **kwargs))
+            datas = [r.data if isinstance(r, xr.DataArray) else r for r in rets]
+            computed = dask.compute(*datas)
+            out = []
+            for r, w in zip(rets, computed):
+                out.append(dump(r.copy(data=np.asarray(w)) if isinstance(r, xr.DataArray) else np.asarray(w)))
+            return {'ok': True, 'ret': out}
+        except Exception as e:
+            return {'ok': False, 'exc': type(e).__name__, 'msg': str(e)[:500]}
     if op == 'script':
         # run a helper from sx.worker_ext (shim self-tests, dask differential)
         from sx import worker_ext
